@@ -72,8 +72,12 @@ static Whole run_whole(const Program &P, const string &map) {
   } catch (Error &e) { r.eval_err = true; r.msg = string("optimizer run: ") + e.what(); }
   return r;
 }
+// `noise`: the same tensors from the reference backend with all leaves perturbed by 2^-21 relative.
+// A deviation between backends is "float32 rounding" if it is within TOL_WHOLE, or within 16x what
+// that rounding-level perturbation of the inputs does to the reference itself (ill-conditioned
+// programs, e.g. after an optimizer step moved a parameter next to a singularity; counted).
 static bool cmp_tensors(const string &what, const vector<FV> &ref, const vector<FV> &oth, bool bitwise, Stats &st, string &why,
-                        const vector<FV> *mask_grads = nullptr) {
+                        const vector<FV> *mask_grads = nullptr, const vector<FV> *noise = nullptr) {
   if (ref.size() != oth.size()) { why = what + ": tensor count " + S(ref.size()) + " vs " + S(oth.size()); return false; }
   for (size_t t = 0; t < ref.size(); ++t) {
     if (ref[t].size() != oth[t].size()) { why = what + ": size of tensor " + S(t); return false; }
@@ -87,6 +91,10 @@ static bool cmp_tensors(const string &what, const vector<FV> &ref, const vector<
       if (bitwise) { if (bits(a) != bits(b)) { why = what + " (bit-exact program): tensor " + S(t) + " elem " + S(i) + ": " + fmt(a) + " vs " + fmt(b); return false; } continue; }
       double dev = std::fabs((double)a - (double)b) / mx;
       double &m = st.maxdev["whole_" + what.substr(0, what.find(' '))]; m = std::max(m, dev);
+      if (!(dev <= TOL_WHOLE) && noise && t < noise->size() && (*noise)[t].size() == ref[t].size()) {
+        double nd = 0; for (size_t q = 0; q < ref[t].size(); ++q) nd = std::max(nd, std::fabs((double)ref[t][q] - (double)(*noise)[t][q]) / mx);
+        if (dev <= 16 * nd || !std::isfinite(nd)) { st.extra["illconditioned_tensors_widened"]++; continue; }
+      }
       if (!(dev <= TOL_WHOLE)) { why = what + ": tensor " + S(t) + " elem " + S(i) + ": " + fmt(a) + " vs " + fmt(b) + " (rel " + fmt(dev) + ")"; return false; }
     }
   }
@@ -140,6 +148,8 @@ static Verdict check_backend(const Program &P, Stats &st) {
   }
   // ---------- (b) whole programs, Node API, four device maps
   Whole ref = run_whole(P, "NN");
+  g_leaf_perturb = 1; Whole nz; try { nz = run_whole(P, "NN"); } catch (...) { g_leaf_perturb = 0; throw; } g_leaf_perturb = 0;
+  const vector<FV> nzy = {nz.y};
   bool exact = exact_program(P);
   static const char *const maps[] = {"EE", "NE", "EN"};
   for (int m = 0; m < 3; ++m) {
@@ -151,10 +161,10 @@ static Verdict check_backend(const Program &P, Stats &st) {
     if (o.eval_err != ref.eval_err) return Verdict::F("eval-differs " + tag + (ref.eval_err ? ref.msg : o.msg));
     if (ref.eval_err || !all_finite(ref.y)) continue;
     string why;
-    if (!cmp_tensors("value " + tag, {ref.y}, {o.y}, exact, st, why)) return Verdict::F("whole-" + why);
-    if (!cmp_tensors("grad " + tag, ref.grads, o.grads, false, st, why)) return Verdict::F("whole-" + why);
-    if (!cmp_tensors("sgd " + tag, ref.sgd, o.sgd, false, st, why)) return Verdict::F("whole-" + why);
-    if (!cmp_tensors("adam " + tag, ref.adam, o.adam, false, st, why, &ref.grads)) return Verdict::F("whole-" + why);
+    if (!cmp_tensors("value " + tag, {ref.y}, {o.y}, exact, st, why, nullptr, &nzy)) return Verdict::F("whole-" + why);
+    if (!cmp_tensors("grad " + tag, ref.grads, o.grads, false, st, why, nullptr, &nz.grads)) return Verdict::F("whole-" + why);
+    if (!cmp_tensors("sgd " + tag, ref.sgd, o.sgd, false, st, why, nullptr, &nz.sgd)) return Verdict::F("whole-" + why);
+    if (!cmp_tensors("adam " + tag, ref.adam, o.adam, false, st, why, &ref.grads, &nz.adam)) return Verdict::F("whole-" + why);
     vd.nontrivial = true; st.extra[string("whole_") + maps[m]]++;
   }
   if (exact && ref.fail_at < 0) st.extra["bit_exact_programs"]++;
